@@ -55,6 +55,7 @@ type run struct {
 	pvSorts  map[string]*smt.Sort
 	autoUnrolled map[string]bool
 	Trivial  int
+	known    map[*smt.Term]bool   // atoms fixed by unconditional facts
 	factTag  map[*smt.Term]string // fact -> family instance it was assumed from
 	curTag   string
 	goalTag  string
@@ -125,12 +126,43 @@ func (r *run) assume(guard, fact *smt.Term) {
 	}
 	f := r.C().Implies(guard, fact)
 	r.facts = append(r.facts, f)
+	if guard.IsTrue() && r.dry == 0 {
+		// unconditional facts feed the syntactic pruning of branches (see knownFalse)
+		if r.known == nil {
+			r.known = map[*smt.Term]bool{}
+		}
+		for _, cj := range smt.Conjuncts(fact) {
+			if cj.Op == "not" {
+				r.known[cj.Args[0]] = false
+			} else {
+				r.known[cj] = true
+			}
+		}
+	}
 	if r.curTag != "" {
 		if r.factTag == nil {
 			r.factTag = map[*smt.Term]string{}
 		}
 		r.factTag[f] = r.curTag
 	}
+}
+
+// knownFalse: cond contradicts an unconditional fact syntactically (a precondition such as
+// "not in web mode" cuts the branch it guards, so code outside the subset behind it is never executed).
+func (r *run) knownFalse(cond *smt.Term) bool {
+	if len(r.known) == 0 {
+		return false
+	}
+	for _, cj := range smt.Conjuncts(cond) {
+		if cj.Op == "not" {
+			if v, ok := r.known[cj.Args[0]]; ok && v {
+				return true
+			}
+		} else if v, ok := r.known[cj]; ok && !v {
+			return true
+		}
+	}
+	return false
 }
 
 // factsFor returns the facts an obligation may use: all facts so far, except that facts assumed from
@@ -1048,7 +1080,7 @@ func (fr *frame) getNode(b *ssa.BasicBlock, iter []int) *node {
 
 // addEdge connects cur (end of block from, at iteration vector iter) to successor s.
 func (fr *frame) addEdge(cur *node, from *ssa.BasicBlock, iter []int, s *ssa.BasicBlock, cond *smt.Term) {
-	if cond.IsFalse() {
+	if cond.IsFalse() || fr.r.knownFalse(cond) {
 		return
 	}
 	if fr.dryLoop != nil && !fr.dryLoop.contains(s) {
